@@ -506,6 +506,41 @@ rejected line between accepted ones and a line the normaliser changes.",
         predict_case_strategy,
         test_predict,
     );
+    rep.run_enum(
+        "long-streams",
+        "deterministic large inputs through the real predict binary: 3,000 short lines (every \
+10th empty, every 37th containing NUL), one 30,000-character line, with --scores / --predict-tags \
+--tag-scores; same oracle",
+        false,
+        (0..3u8).map(|k| {
+            let mc = crate::checks::c14::large_model(&crate::checks::c14::LargeCase { n_tag_models: 60, n_char_ngrams: 200, n_words: 20 });
+            let ch = |i: usize| char::from_u32(0x4E00 + (i % 120) as u32).unwrap();
+            let lines: Vec<String> = match k {
+                0 | 1 => (0..3000usize)
+                    .map(|i| {
+                        if i % 10 == 9 {
+                            String::new()
+                        } else if i % 37 == 5 {
+                            format!("{}\0{}", ch(i), ch(i + 1))
+                        } else {
+                            (0..(1 + i % 9)).map(|j| if (i + j) % 11 == 0 { 'a' } else { ch(i * 3 + j) }).collect()
+                        }
+                    })
+                    .collect(),
+                _ => vec![(0..30_000).map(|i| if i % 50 == 7 { '1' } else { ch(i * 7 + i / 13) }).collect(), "短".into()],
+            };
+            PredictCase {
+                spec: mc.spec,
+                lines,
+                no_norm: k == 1,
+                predict_tags: k != 1,
+                scores: k != 0,
+                tag_scores: k == 0,
+                wsconst: if k == 2 { vec!['D', 'G'] } else { vec![] },
+            }
+        }),
+        test_predict,
+    );
     let n = rep.n(800, 8000);
     rep.run_prop(
         "evaluate",
